@@ -579,6 +579,8 @@ def align_variable_names_with_convention(
             or len(scope_definitions) != definitions[name] - member_definitions[name]
             or (name_count and len(nodes) - name_count != definitions[name])
             or fixed_names[name]
+            # Where such a name is used before it is bound, it still means the builtin
+            or name in constants.BUILTIN_FUNCTIONS
             or (is_member and attributes[name])
             or any(
                 variables[substitute]
